@@ -25,6 +25,9 @@
 (*   C12.present  SyncEnd lines of an undisturbed sync                      *)
 (*   C12.content  SyncEnd lines of an undisturbed sync, files this sync     *)
 (*                renamed into place only                                   *)
+(*   C12.refresh  SyncEnd line of the undisturbed FIRST sync of a process   *)
+(*                life: an entry that was older than its placement node at  *)
+(*                SyncBegin holds manifest + current placement data         *)
 (*   drift.step   the observed call is not the step the model (NodeCache's  *)
 (*                En/Do) takes here, or its effect differs: this is how the *)
 (*                SEQUENCE of write-path calls of every _cache is judged    *)
@@ -57,8 +60,12 @@ CanonZk(z) == [pl |-> [a \in DOMAIN z.pl |-> [data |-> z.pl[a].data, new |-> z.p
 (* state, same names, same dot-ness, and wherever the model says "complete" *)
 (* the file parses and holds exactly the predicted mapping.  (What an       *)
 (* INCOMPLETE file holds on disk is not predicted: buffering.)              *)
+(* `new` is not compared: it is the outcome of comparing two real time      *)
+(* stamps and changes by itself when a file is replaced by a younger one;   *)
+(* the observed value is adopted.                                           *)
+PlData(z) == [a \in DOMAIN z.pl |-> z.pl[a].data]
 ObsEq(pred, post) ==
-  /\ pred.zk = CanonZk(post.zk)
+  /\ PlData(pred.zk) = PlData(post.zk) /\ pred.zk.man = post.zk.man
   /\ DOMAIN pred.dir = DOMAIN post.dir
   /\ \A nm \in DOMAIN pred.dir :
         /\ pred.dir[nm].dot = post.dir[nm].dot
@@ -157,6 +164,7 @@ Verdict(s, line, post, ag2, explained) ==
         \cup (IF end THEN F("C12.noExtra", NoExtra(od, ag2.expected)) ELSE {})
         \cup (IF calm THEN F("C12.present", Present(od, zk, ag2.expected)) ELSE {})
         \cup (IF calm THEN F("C12.content", Content(od, zk, ag2.written)) ELSE {})
+        \cup (IF calm /\ ag2.start THEN F("C12.refresh", Refresh(od, zk, ag2.stale0)) ELSE {})
         \cup F("drift.step", explained),
       ex |->
         E("C12", \/ line.ev = "Rename" /\ "exc" \notin DOMAIN line
@@ -165,6 +173,8 @@ Verdict(s, line, post, ag2, explained) ==
         \cup E("sync", calm /\ ag2.expected # {})
         \cup E("written", calm /\ ag2.written # {})
         \cup E("conc", end /\ ag2.disturbed)
+        \cup E("refresh", calm /\ ag2.start /\ \E a \in ag2.stale0 :
+                              a \in DOMAIN zk.pl /\ a \in DOMAIN zk.man)
         \cup E("crash", line.ev = "Crash")
         \cup E("crashTmp", line.ev = "Crash" /\ \E nm \in DOMAIN post.dir :
                                post.dir[nm].dot /\ nm \notin s.ag.tmps0 /\ nm # ReadyName)
